@@ -5,6 +5,7 @@
 package vx
 
 import (
+	"context"
 	"crypto/sha256"
 	"encoding/hex"
 	"encoding/json"
@@ -254,8 +255,17 @@ func (w *W) StartWatchdog(limit time.Duration) {
 
 // SubRun executes this binary as `<ID> --sub args...` in a fresh process and returns its stdout.
 func SubRun(id string, args ...string) ([]byte, error) {
-	cmd := exec.Command(os.Args[0], append([]string{id, "--sub"}, args...)...)
-	cmd.Env = append(os.Environ(), "TZ=UTC", "VX_WORKER=", "GOMAXPROCS=2")
+	return SubRunEnv(id, nil, args...)
+}
+
+// SubRunEnv is SubRun with extra environment settings (they override the defaults, e.g. TZ).
+func SubRunEnv(id string, env []string, args ...string) ([]byte, error) {
+	// a helper process that does not come back within ten minutes is killed (a hang of the code under test must not
+	// hang the check); the caller sees the error
+	ctx, cancel := context.WithTimeout(context.Background(), 10*time.Minute)
+	defer cancel()
+	cmd := exec.CommandContext(ctx, os.Args[0], append([]string{id, "--sub"}, args...)...)
+	cmd.Env = append(append(os.Environ(), "TZ=UTC", "VX_WORKER=", "GOMAXPROCS=2"), env...)
 	var stderr strings.Builder
 	cmd.Stderr = &stderr
 	out, err := cmd.Output()
